@@ -33,6 +33,7 @@ CHECKS = {
     "C11": (TV, "shadow", A_TECH + "; symbolic integration masks with path exploration", A_NOTE, "IntegrateQuery.__call__ is executed symbolically with the integration mask entries as solver variables (paths over the mask explored within a stated budget) and with every accepted mask format (Scope, list of Scopes, bool/int tensor); z3 decides, per batch row, equality with the reference marginal (sum / Gaussian integral over exactly the masked variables); empty scopes, full scopes and per-row different masks included."),
     "C12": (TV, "shadow", A_TECH, A_NOTE, "Template circuits built with normalised parameterisations (image_data, tabular_data, hmm, fully_factorized, region graphs with softmax weights and mixing) are integrated over the whole scope, compiled and executed symbolically; z3 decides Z(theta) == 1 for all parameter values (softmax abstracted to the open simplex), non-negativity of the denotation and definedness of every log."),
     "C14": (TV, "shadow", A_TECH, A_NOTE, "Parameter computational graphs (every symbolic parameter node type, 142 graph builders) are compiled unfolded and folded and executed symbolically with all tensor entries as solver variables; z3 decides per entry equality with refsem.eval_parameter, and the optimizer's parameter rewrites are checked on circuits whose weights are such graphs (optimize on/off)."),
+    "C20": (TV, "shadow", A_TECH, A_NOTE, "Template circuits (cp, tucker, tensor_train, hmm, fully_factorized, logic decision graphs) are compiled and executed symbolically with all factor / weight tensors and index tuples as solver variables; z3 decides equality with the documented contraction / latent-path sum / truth table written over the factor tensors looked up by variable id (never through the wiring); per-variable arguments must reach the input layer of that variable id; logic circuits keep their default parameters and their compiled integral must equal the model count."),
 }
 
 LEVEL_DOC = {
